@@ -7,10 +7,20 @@
     annotation a pod already carries. [grouping cfg cl p a = GOk pl g os used]
     says: plugin [pl] derives the group from object [g] (after skip-top-owner
     unwrapping) and [used] tells whether the pod itself served as an owner
-    object on the way. The handler is modelled in two versions — before
-    ([ignore_sg_v0], [pg_equal_v0]) and since ([ignore_sg_v1], [pg_equal_v1]) the
-    repair 9775a95; [reconcile], [run] are the current one. Statements (2) and (4)
-    hold for EVERY version [sg] of ignoreFields and EVERY equality test [eq]. *)
+    object on the way.
+
+    The model carries one switch per repair made to the code, the un-suffixed
+    definitions ([full_md], [reconcile], [run], [settles], [coherent]) being the
+    code as it is:
+    - [sg], [eq]: the handler before ([ignore_sg_v0], [pg_equal_v0]) and since
+      ([ignore_sg_v1], [pg_equal_v1]) 9775a95;
+    - [pf]: assignPodToGroupAndSubGroup before ([patch_fix_v0]) and since
+      ([patch_fix_v1]) 3f1c7d2;
+    - [af]: CalcPodGroupAnnotations before ([annot_fix_v0]) and since
+      ([annot_fix_v1]) 8227120.
+    Statements (2) and (4) hold for EVERY version [sg] of ignoreFields, EVERY
+    equality test [eq] and both [pf]. The theorems named [_before_repair] keep the
+    history of the three findings machine-checked. *)
 From Coq Require Import List String ZArith.
 From KaiV Require Import Model.Grouper Model.GrouperSpec Proofs.Grouper.
 Import ListNotations.
@@ -44,123 +54,213 @@ Theorem C18_per_pod_kinds :
 Proof. exact per_pod_kinds. Qed.
 Print Assumptions C18_per_pod_kinds.
 
-(** (2) Order independence, general form: for a coherent set of pods (distinct names; a pod's
-    metadata is unchanged by its own assignment or the pod is skipped afterwards; equal group
+(** (2) Order independence, general form: for a coherent set of pods (distinct names; equal group
     names mean equal metadata), two arbitrary lists of reconcile events that mention the same
     pods — in any order, any number of times each — lead from any start state to the same
-    PodGroups and the same pod annotations. *)
+    PodGroups and the same pod annotations. Since 8227120 coherence no longer asks that each pod
+    settles: every pod does, (3a). *)
 Theorem C18_order_independent :
-  forall sg eq cfg cl ps es1 es2 s,
+  forall pf sg eq cfg cl ps es1 es2 s,
     coherent cfg cl ps ->
     incl es1 ps -> incl es2 ps -> incl es1 es2 -> incl es2 es1 ->
-    st_equiv (run_with sg eq cfg cl (map EvReconcile es1) s) (run_with sg eq cfg cl (map EvReconcile es2) s).
+    st_equiv (run_with annot_fix pf sg eq cfg cl (map EvReconcile es1) s)
+             (run_with annot_fix pf sg eq cfg cl (map EvReconcile es2) s).
 Proof. exact order_independent_coherent. Qed.
 Print Assumptions C18_order_independent.
 
-(** (2') ... instantiated: the siblings of an owner handled by the default grouper are coherent. *)
+(** (2') ... instantiated: the siblings of an owner handled by the default grouper are coherent
+    (in every version of the code). *)
 Theorem C18_order_independent_siblings :
-  forall sg eq cfg cl ps p0 a0 g os es1 es2 s,
+  forall af pf sg eq cfg cl ps p0 a0 g os es1 es2 s,
     NoDup (map p_name ps) ->
     (forall p, In p ps -> same_template cfg p0 p) ->
     grouping cfg cl p0 a0 = GOk PDefault g os false ->
     incl es1 ps -> incl es2 ps -> incl es1 es2 -> incl es2 es1 ->
-    st_equiv (run_with sg eq cfg cl (map EvReconcile es1) s) (run_with sg eq cfg cl (map EvReconcile es2) s).
+    st_equiv (run_with af pf sg eq cfg cl (map EvReconcile es1) s) (run_with af pf sg eq cfg cl (map EvReconcile es2) s).
 Proof. exact order_independent_siblings. Qed.
 Print Assumptions C18_order_independent_siblings.
 
-(** Without coherence the statement is false, before and after the repair: a pod owned directly by
-    a skip-top-owner kind (argo Workflow) is its own grouping object, and its second reconcile
-    copies the pod-group annotation written by the first one into the PodGroup. *)
-Theorem C18_order_independent_unrestricted_refuted :
-  ~ order_independent_unrestricted ignore_sg_v0 pg_equal_v0
-  /\ ~ order_independent_unrestricted ignore_sg_v1 pg_equal_v1.
-Proof. exact order_independent_unrestricted_refuted. Qed.
-Print Assumptions C18_order_independent_unrestricted_refuted.
+(** (2'') Without any coherence: reconciling one pod twice leaves exactly the PodGroups and pod
+    annotations the first reconcile produced, for every pod, cluster, configuration and state. *)
+Theorem C18_reconcile_twice_same_state :
+  forall pf sg eq cfg cl p s,
+    st_equiv (run_with annot_fix pf sg eq cfg cl (map EvReconcile [p]) s)
+             (run_with annot_fix pf sg eq cfg cl (map EvReconcile [p; p]) s).
+Proof. exact reconcile_twice_same_state. Qed.
+Print Assumptions C18_reconcile_twice_same_state.
 
-(** (3) Idempotence of the code as it is (since 9775a95): for every pod that settles and carries
-    no stale sub-group label, a second reconcile without external change performs zero
-    mutating calls, from any start state. *)
-Definition C18_idempotent_statement : Prop := idempotent_statement ignore_sg pg_equal.
+(** Before 8227120 this was false (with the handler before and since 9775a95): a pod owned directly
+    by a skip-top-owner kind (argo Workflow) is its own grouping object, and its second reconcile copied
+    the pod-group annotation written by the first one into the PodGroup. *)
+Theorem C18_reconcile_twice_before_repair :
+  ~ order_independent_unrestricted annot_fix_v0 patch_fix ignore_sg_v0 pg_equal_v0
+  /\ ~ order_independent_unrestricted annot_fix_v0 patch_fix ignore_sg_v1 pg_equal_v1.
+Proof. exact order_independent_unrestricted_before_repair. Qed.
+Print Assumptions C18_reconcile_twice_before_repair.
 
-Theorem C18_idempotent : C18_idempotent_statement.
+(** The general form of (2) for every version of the code, where each pod of the set must be known
+    to settle. *)
+Theorem C18_order_independent_any_version :
+  forall af pf sg eq cfg cl ps es1 es2 s,
+    coherent_with af cfg cl ps ->
+    incl es1 ps -> incl es2 ps -> incl es1 es2 -> incl es2 es1 ->
+    st_equiv (run_with af pf sg eq cfg cl (map EvReconcile es1) s) (run_with af pf sg eq cfg cl (map EvReconcile es2) s).
+Proof. exact order_independent_coherent_with. Qed.
+Print Assumptions C18_order_independent_any_version.
+
+(** (3a) Every pod settles: the metadata computed for a pod that already carries the pod-group
+    annotation of its group is the metadata that produced that annotation, or the pod is skipped from
+    then on (owner-less pods). No hypothesis on the owner chain: pods grouped by an owner object, pods
+    that are their own grouping object (direct owner of a skip-top-owner kind, direct owner the grouper
+    may not GET), pods carrying a pod-group annotation of their own, ownership chains that fail. *)
+Theorem C18_all_pods_settle : forall cfg cl p, settles cfg cl p.
+Proof. exact all_settle. Qed.
+Print Assumptions C18_all_pods_settle.
+
+(** (3) Idempotence of the code as it is: a second reconcile of ANY pod, in ANY state (in particular any
+    reachable one), for any cluster and configuration, issues no mutating call. *)
+Definition C18_idempotent_statement : Prop := idempotent_statement annot_fix patch_fix ignore_sg pg_equal.
+
+Theorem C18_idempotent :
+  forall cfg cl p s, snd (reconcile cfg cl p (fst (reconcile cfg cl p s))) = 0%Z.
 Proof. exact idempotent_v1. Qed.
 Print Assumptions C18_idempotent.
 
-(** The handler before 9775a95 REFUTED this: createPodGroupForMetadata builds SubGroups:
-    []SubGroup{} and ignoreFields an empty non-nil label map, the API returns nil for both,
-    podGroupsEqual said "different", and every reconcile issued an Update (witness: a StatefulSet
-    pod, empty store). Kept as documentation of the finding and as the model of the regression. *)
-Theorem C18_idempotent_v0_refuted : ~ idempotent_statement ignore_sg_v0 pg_equal_v0.
+(** (3') ... with other reconciles in between: in a coherent set, once a pod was reconciled every later
+    reconcile of it is silent, whatever reconciles of pods of the set happened before and since. The start
+    state is arbitrary, so [s] may be the result of any earlier events, foreign updates included: "no
+    foreign update since the pod's last reconcile" is all that is asked. *)
+Theorem C18_idempotent_interleaved :
+  forall cfg cl ps es p s,
+    coherent cfg cl ps -> incl es ps -> In p es ->
+    snd (reconcile cfg cl p (run cfg cl (map EvReconcile es) s)) = 0%Z.
+Proof. exact idempotent_interleaved. Qed.
+Print Assumptions C18_idempotent_interleaved.
+
+(** History 1 (9775a95). The handler before it REFUTED even the weak form of (3) — pods that settle
+    and carry no stale sub-group label — in every combination of the later repairs:
+    createPodGroupForMetadata builds SubGroups: []SubGroup{} and ignoreFields an empty non-nil label
+    map, the API returns nil for both, podGroupsEqual said "different", and every reconcile issued an
+    Update (witness: a StatefulSet pod, empty store). *)
+Theorem C18_idempotent_v0_refuted : forall af pf, ~ idempotent_partial_statement af pf ignore_sg_v0 pg_equal_v0.
 Proof. exact idempotent_v0_refuted. Qed.
 Print Assumptions C18_idempotent_v0_refuted.
 
-(** Neither half of the repair suffices alone (owner without labels): sub-group step without the
+(** Neither half of that repair suffices alone (owner without labels): sub-group step without the
     map comparison, and the map comparison without the sub-group step, both still write. *)
 Theorem C18_half_repairs_insufficient :
-  snd (reconcile_with true pg_equal_v0 ex_cfg [ex_bare_sts] (ex_pod "0")
-         (rec_step true pg_equal_v0 ex_cfg [ex_bare_sts] (ex_pod "0") empty_state)) = 1%Z
-  /\ snd (reconcile_with false pg_equal_v1 ex_cfg [ex_bare_sts] (ex_pod "0")
-            (rec_step false pg_equal_v1 ex_cfg [ex_bare_sts] (ex_pod "0") empty_state)) = 1%Z.
+  snd (reconcile_with annot_fix patch_fix true pg_equal_v0 ex_cfg [ex_bare_sts] (ex_pod "0")
+         (rec_step annot_fix patch_fix true pg_equal_v0 ex_cfg [ex_bare_sts] (ex_pod "0") empty_state)) = 1%Z
+  /\ snd (reconcile_with annot_fix patch_fix false pg_equal_v1 ex_cfg [ex_bare_sts] (ex_pod "0")
+            (rec_step annot_fix patch_fix false pg_equal_v1 ex_cfg [ex_bare_sts] (ex_pod "0") empty_state)) = 1%Z.
 Proof. exact ex_half_repairs_insufficient. Qed.
 Print Assumptions C18_half_repairs_insufficient.
 
-(** Pods grouped by an owner object settle; so do pods without owner. *)
-Theorem C18_settles :
-  forall cfg cl p,
-    (p_owners p = [] \/ exists a pl g os, grouping cfg cl p a = GOk pl g os false) -> settles cfg cl p.
+(** What held between 9775a95 and the two later repairs, in every combination of them: (3) for pods that
+    settle and carry no stale sub-group label; pods grouped by an owner object and owner-less pods settle. *)
+Theorem C18_idempotent_partial_any_version :
+  forall af pf cfg cl p s,
+    settles_with af cfg cl p -> no_stale_subgroup p ->
+    snd (reconcile_with af pf ignore_sg pg_equal cfg cl p (rec_step af pf ignore_sg pg_equal cfg cl p s)) = 0%Z.
+Proof. exact idempotent_partial. Qed.
+Print Assumptions C18_idempotent_partial_any_version.
+
+Theorem C18_settles_any_version :
+  forall af cfg cl p,
+    (p_owners p = [] \/ exists a pl g os, grouping cfg cl p a = GOk pl g os false) -> settles_with af cfg cl p.
 Proof. exact settles_cases. Qed.
-Print Assumptions C18_settles.
+Print Assumptions C18_settles_any_version.
 
-(** Neither hypothesis of (3) can be dropped (two remaining findings on the current code): the
-    Workflow-owned pod does not settle and writes on its second reconcile (not on its third); a
-    pod with a stale sub-group label settles but is patched on every reconcile. *)
-Theorem C18_idempotent_unsettled_refuted :
-  ~ settles ex_cfg [ex_wf] ex_step
-  /\ snd (reconcile ex_cfg [ex_wf] ex_step (fst (reconcile ex_cfg [ex_wf] ex_step empty_state))) = 1%Z.
-Proof. split; [exact ex_step_not_settled|exact (proj1 ex_step_second_reconcile_writes)]. Qed.
-Print Assumptions C18_idempotent_unsettled_refuted.
+(** History 2 (8227120, finding C18-annotation-feedback). With the old CalcPodGroupAnnotations and
+    everything else as it is: the Workflow-owned pod [ex_step] does not settle, its second reconcile issues
+    an Update that puts pod-group-name into its PodGroup (its third is silent); the same for a pod whose
+    direct owner the grouper may not GET; hence (3) was false. *)
+Theorem C18_annotation_feedback_before_repair :
+  ~ settles_with annot_fix_v0 ex_cfg [ex_wf] ex_step
+  /\ snd (reconcile_with annot_fix_v0 patch_fix true pg_equal_v1 ex_cfg [ex_wf] ex_step
+            (rec_step annot_fix_v0 patch_fix true pg_equal_v1 ex_cfg [ex_wf] ex_step empty_state)) = 1%Z
+  /\ snd (reconcile_with annot_fix_v0 patch_fix true pg_equal_v1 ex_cfg [ex_wf] ex_step
+            (rec_step annot_fix_v0 patch_fix true pg_equal_v1 ex_cfg [ex_wf] ex_step
+               (rec_step annot_fix_v0 patch_fix true pg_equal_v1 ex_cfg [ex_wf] ex_step empty_state))) = 0%Z
+  /\ pg_self_annot "pg-step-0-u-s0"
+       (rec_step annot_fix_v0 patch_fix true pg_equal_v1 ex_cfg [ex_wf] ex_step
+          (rec_step annot_fix_v0 patch_fix true pg_equal_v1 ex_cfg [ex_wf] ex_step empty_state))
+     = Some (Some "pg-step-0-u-s0"%string)
+  /\ snd (reconcile_with annot_fix_v0 patch_fix true pg_equal_v1 ex_cfg_forbidden [ex_sts] (ex_pod "0")
+            (rec_step annot_fix_v0 patch_fix true pg_equal_v1 ex_cfg_forbidden [ex_sts] (ex_pod "0") empty_state)) = 1%Z
+  /\ ~ idempotent_statement annot_fix_v0 patch_fix ignore_sg pg_equal.
+Proof. exact annotation_feedback_before_repair. Qed.
+Print Assumptions C18_annotation_feedback_before_repair.
 
-Theorem C18_idempotent_stale_subgroup_refuted :
+(** ... and the same two witnesses on the code as it is: the first reconcile creates the PodGroup and
+    patches the pod (2 calls), every later reconcile is silent, the PodGroup never holds pod-group-name. *)
+Theorem C18_annotation_feedback_now_quiet :
+  snd (reconcile ex_cfg [ex_wf] ex_step empty_state) = 2%Z
+  /\ (forall n, snd (reconcile ex_cfg [ex_wf] ex_step (after (S n) ex_cfg [ex_wf] ex_step)) = 0%Z)
+  /\ pg_self_annot "pg-step-0-u-s0" (after 2 ex_cfg [ex_wf] ex_step) = Some None
+  /\ snd (reconcile ex_cfg_forbidden [ex_sts] (ex_pod "0") empty_state) = 2%Z
+  /\ (forall n, snd (reconcile ex_cfg_forbidden [ex_sts] (ex_pod "0") (after (S n) ex_cfg_forbidden [ex_sts] (ex_pod "0"))) = 0%Z)
+  /\ pg_self_annot "pg-web-0-u-p0" (after 2 ex_cfg_forbidden [ex_sts] (ex_pod "0")) = Some None.
+Proof. exact annotation_feedback_now_quiet. Qed.
+Print Assumptions C18_annotation_feedback_now_quiet.
+
+(** History 3 (3f1c7d2, finding C18-stale-subgroup-repatch). With the old patch condition and everything
+    else as it is: the StatefulSet pod [ex_stale], which settles but carries the label
+    kai.scheduler/subgroup-name=gone, is patched on its second and on its third reconcile; hence (3) was false. *)
+Theorem C18_stale_subgroup_before_repair :
   settles ex_cfg [ex_sts] ex_stale /\ ~ no_stale_subgroup ex_stale
-  /\ snd (reconcile_with true pg_equal_v1 ex_cfg [ex_sts] ex_stale
-            (rec_step true pg_equal_v1 ex_cfg [ex_sts] ex_stale
-               (rec_step true pg_equal_v1 ex_cfg [ex_sts] ex_stale empty_state))) = 1%Z.
-Proof. exact ex_stale_repatched. Qed.
-Print Assumptions C18_idempotent_stale_subgroup_refuted.
+  /\ snd (reconcile_with annot_fix patch_fix_v0 true pg_equal_v1 ex_cfg [ex_sts] ex_stale
+            (rec_step annot_fix patch_fix_v0 true pg_equal_v1 ex_cfg [ex_sts] ex_stale empty_state)) = 1%Z
+  /\ snd (reconcile_with annot_fix patch_fix_v0 true pg_equal_v1 ex_cfg [ex_sts] ex_stale
+            (rec_step annot_fix patch_fix_v0 true pg_equal_v1 ex_cfg [ex_sts] ex_stale
+               (rec_step annot_fix patch_fix_v0 true pg_equal_v1 ex_cfg [ex_sts] ex_stale empty_state))) = 1%Z
+  /\ ~ idempotent_statement annot_fix patch_fix_v0 ignore_sg pg_equal.
+Proof. exact stale_subgroup_before_repair. Qed.
+Print Assumptions C18_stale_subgroup_before_repair.
+
+(** ... and on the code as it is: 2 calls on the first reconcile, none on any later one; the label stays. *)
+Theorem C18_stale_subgroup_now_quiet :
+  ~ no_stale_subgroup ex_stale
+  /\ snd (reconcile ex_cfg [ex_sts] ex_stale empty_state) = 2%Z
+  /\ (forall n, snd (reconcile ex_cfg [ex_sts] ex_stale (after (S n) ex_cfg [ex_sts] ex_stale)) = 0%Z)
+  /\ lookup subgroup_label_key (p_labels ex_stale) = Some "gone"%string.
+Proof. exact stale_subgroup_now_quiet. Qed.
+Print Assumptions C18_stale_subgroup_now_quiet.
 
 (** (4) Fields owned by other actors: for any sequence of reconciles (of any pods) and foreign
     updates, the queue, mark-unschedulable, scheduling-backoff and node-pool label of an existing
     PodGroup are exactly what the foreign updates alone make of them. *)
 Theorem C18_foreign_fields_kept :
-  forall sg eq cfg cl evs s n g,
+  forall af pf sg eq cfg cl evs s n g,
     c_queue_key cfg <> c_nodepool_key cfg ->
     get_pg n s = Some g ->
-    exists g', get_pg n (run_with sg eq cfg cl evs s) = Some g'
+    exists g', get_pg n (run_with af pf sg eq cfg cl evs s) = Some g'
                /\ foreign_view cfg g' = foreign_only n evs (foreign_view cfg g).
 Proof. exact foreign_fields_kept. Qed.
 Print Assumptions C18_foreign_fields_kept.
 
 (** (4') A queue label that is present survives a reconcile; PodGroups of other names are not touched. *)
 Theorem C18_queue_label_kept :
-  forall sg eq cfg cl p s n g v,
+  forall af pf sg eq cfg cl p s n g v,
     get_pg n s = Some g -> mget (c_queue_key cfg) (pg_labels g) = Some v ->
-    exists g', get_pg n (rec_step sg eq cfg cl p s) = Some g' /\ mget (c_queue_key cfg) (pg_labels g') = Some v.
+    exists g', get_pg n (rec_step af pf sg eq cfg cl p s) = Some g' /\ mget (c_queue_key cfg) (pg_labels g') = Some v.
 Proof. exact queue_label_kept. Qed.
 Print Assumptions C18_queue_label_kept.
 
 Theorem C18_other_groups_untouched :
-  forall sg eq cfg cl p s n,
-    (forall m, full_md cfg cl p (get_asg (p_name p) s) = Some m -> m_name m <> n) ->
-    get_pg n (rec_step sg eq cfg cl p s) = get_pg n s.
+  forall af pf sg eq cfg cl p s n,
+    (forall m, full_md_with af cfg cl p (get_asg (p_name p) s) = Some m -> m_name m <> n) ->
+    get_pg n (rec_step af pf sg eq cfg cl p s) = get_pg n s.
 Proof. exact other_groups_untouched. Qed.
 Print Assumptions C18_other_groups_untouched.
 
-(** Non-vacuity: two StatefulSet pods meet the hypotheses of (1), (2), (3) and (4); reconciled in
-    the order 1, 0 they end in one PodGroup pg-web-u-sts with the owner's queue. *)
+(** Non-vacuity: two StatefulSet pods meet the hypotheses of (1), (2), (3') and (4), in every version;
+    reconciled in the order 1, 0 they end in one PodGroup pg-web-u-sts with the owner's queue. *)
 Theorem C18_nonvacuous :
   same_template ex_cfg (ex_pod "0") (ex_pod "1")
   /\ NoDup (map p_name [ex_pod "0"; ex_pod "1"])
   /\ coherent ex_cfg [ex_sts] [ex_pod "0"; ex_pod "1"]
+  /\ (forall af, coherent_with af ex_cfg [ex_sts] [ex_pod "0"; ex_pod "1"])
   /\ no_stale_subgroup (ex_pod "0")
   /\ c_queue_key ex_cfg <> c_nodepool_key ex_cfg
   /\ let s := run ex_cfg [ex_sts] [EvReconcile (ex_pod "1"); EvReconcile (ex_pod "0")] empty_state in
